@@ -45,6 +45,7 @@ GROUP_PROPS = {
     'reg': {'C14'},
     'letgo': {'C14', 'C07'},    # the server's side of a stream whose caller has gone is told (reset / cancellation)
     'robust': {'C12', 'C01'},
+    'route': {'C16'},          # the routing fields a relay maintains
 }
 
 
